@@ -20,7 +20,9 @@ Verdict per obligation site: discharged | assumed (named content invariant, prin
 undischarged -> VIOLATION. A site that no analysed context reaches is a violation too (the inventory is taken from the
 MIR, not from the analysis).
 Not decided: obligations resting on buffer *content* (NUL termination of history entries, `insert <= cursor_pos` in the
-tokenizer loop, char-boundary facts), listed under `assumed`; UTF-8 validity preconditions are C02's.
+tokenizer loop, char-boundary facts), listed under `assumed`.  The UTF-8 validity preconditions of the unchecked text
+constructions (`from_utf8_unchecked[_mut]`, `str::get_unchecked`) are decided by C02.U4 (index provenance) and C17.D (the
+helpers that produce those indices stop on scalar boundaries); both are imported here, a failure is reported under C03.
 """
 import json
 import os
@@ -32,6 +34,10 @@ from .common import lib_crate, strip_crate
 from . import C14 as base
 
 LEVEL = "other"
+IMPORTS = [
+    ("C02", ("C02.boundary",), "precondition of `from_utf8_unchecked` / `str::get_unchecked`: the bytes are well-formed UTF-8, i.e. both ends of the range are positions between two scalars"),
+    ("C17", ("C17.counting",), "precondition of `from_utf8_unchecked` / `str::get_unchecked`: the indices computed by `char_byte_index` / `common_prefix_len` are positions between two scalars"),
+]
 ISZ = (1 << 63) - 1
 USZ = (1 << 64) - 1
 
